@@ -83,7 +83,7 @@ Definition snap_wf (w : wstate) : list string :=
   ++ map (fun kn => "wn:" +++ fst kn +++ "#" +++ len_str (wn_pending (snd kn)) +++ ":" +++
                     match wn_mapped (snd kn) with
                     | MNone => "" | MWhole => "*" | MFields fs => join "," (sorts fs)
-                    end) (w_nodes w)
+                    end +++ ":" +++ join "," (sorts (wn_static (snd kn)))) (w_nodes w)
   ++ ["wb:" +++ len_str (w_branches w)].
 
 Local Open Scope list_scope.
@@ -115,17 +115,30 @@ Definition all_intact (g : gstate) (rs : issued) : bool :=
 (* what one call showed: its outcome and how the builder state changed — the snapshot
    entries that disappeared and those that appeared (a full snapshot per call would make the
    generated files five times larger) *)
-Definition seen : Type := (obs * (list string * list string))%type.
+Definition seen : Type := (obs * (list N * list N))%type.
 
-Fixpoint remove1 (x : string) (l : list string) : list string :=
-  match l with [] => [] | y :: r => if String.eqb x y then r else y :: remove1 x r end.
-Definition apply_diff (prev : list string) (d : list string * list string) : list string :=
-  sorts (fold_left (fun l x => remove1 x l) (fst d) prev ++ snd d).
-Definition same_state (model observed : list string) : bool := list_eqb String.eqb (sorts model) observed.
+(* snapshot entries travel as 40-bit hashes of their text (string literals are by far the
+   most expensive thing for coqc to read); equal texts have equal hashes, so hashing can
+   never raise an alarm, only — with negligible probability — miss one *)
+Definition hmask : N := 1099511627775%N.
+Fixpoint shash (s : string) (h : N) : N :=
+  match s with
+  | EmptyString => h
+  | String c r => shash r (N.land (h * 131 + N_of_ascii c) hmask)
+  end.
+Definition hs (s : string) : N := shash s 7%N.
+Definition sortn (l : list N) : list N := sort_by N.ltb l.
+
+Fixpoint remove1 (x : N) (l : list N) : list N :=
+  match l with [] => [] | y :: r => if N.eqb x y then r else y :: remove1 x r end.
+Definition apply_diff (prev : list N) (d : list N * list N) : list N :=
+  sortn (fold_left (fun l x => remove1 x l) (fst d) prev ++ snd d).
+Definition hstate (model : list string) : list N := sortn (map hs model).
+Definition same_state (model : list string) (observed : list N) : bool := list_eqb N.eqb (hstate model) observed.
 
 (* result of replaying a case: None = a call's outcome or the state after it differed;
    [prev]: the implementation's state before the call, as reconstructed so far *)
-Fixpoint replay_g (v : ver) (g : gstate) (prev : list string) (cs : list (gcall * seen)) (rs : issued) : option bool :=
+Fixpoint replay_g (v : ver) (g : gstate) (prev : list N) (cs : list (gcall * seen)) (rs : issued) : option bool :=
   match cs with
   | [] => Some (all_intact g rs)
   | (c, (b, d)) :: rest =>
@@ -134,7 +147,7 @@ Fixpoint replay_g (v : ver) (g : gstate) (prev : list string) (cs : list (gcall 
     if matches o b && same_state (snap_graph g') st then replay_g v g' st rest (note g' o rs) else None
   end.
 
-Fixpoint replay_c (v : ver) (c : cstate) (prev : list string) (cs : list (ccall * seen)) (rs : issued) : option bool :=
+Fixpoint replay_c (v : ver) (c : cstate) (prev : list N) (cs : list (ccall * seen)) (rs : issued) : option bool :=
   match cs with
   | [] => Some (all_intact (c_g c) rs)
   | (call, (b, d)) :: rest =>
@@ -143,26 +156,29 @@ Fixpoint replay_c (v : ver) (c : cstate) (prev : list string) (cs : list (ccall 
     if matches o b && same_state (snap_chain c') st then replay_c v c' st rest (note (c_g c') o rs) else None
   end.
 
-(* first order among the candidates whose outcome and resulting state match *)
-Fixpoint pick_order (v : ver) (w : wstate) (o : copt) (b : obs) (st : list string) (cands : list (list string))
+(* first pair of orders among the candidates whose outcome and resulting state match *)
+Fixpoint pick_order (v : ver) (w : wstate) (o : copt) (b : obs) (st : list N) (cands : list (list string * list string))
   : option (wstate * outcome) :=
   match cands with
   | [] => None
-  | ord :: rest =>
-    let '(w', out) := w_compile v w o ord in
+  | (ord, sord) :: rest =>
+    let '(w', out) := w_compile v w o ord sord in
     if matches out b && same_state (snap_wf w') st then Some (w', out) else pick_order v w o b st rest
   end.
 
-(* [ord] of an observed WCompile: the nodes whose deferred inputs that Compile consumed
-   (sorted); the node it failed on, if any, is not known: every node is tried next *)
-Fixpoint replay_w (v : ver) (w : wstate) (prev : list string) (cs : list (wcall * seen)) (rs : issued) : option bool :=
+(* [ord] / [sord] of an observed WCompile: the nodes whose deferred inputs / static values that
+   Compile consumed (sorted); the node it failed on, if any, is not known: every node is
+   tried next, in either loop *)
+Fixpoint replay_w (v : ver) (w : wstate) (prev : list N) (cs : list (wcall * seen)) (rs : issued) : option bool :=
   match cs with
   | [] => Some (all_intact (w_g w) rs)
   | (call, (b, d)) :: rest =>
     let st := apply_diff prev d in
     match call with
-    | WCompile o ord =>
-      match pick_order v w o b st (ord :: map (fun kn => ord ++ [fst kn]) (w_nodes w)) with
+    | WCompile o ord sord =>
+      match pick_order v w o b st
+              ((ord, sord) :: map (fun kn => (ord ++ [fst kn], sord)) (w_nodes w)
+                           ++ map (fun kn => (ord, sord ++ [fst kn])) (w_nodes w)) with
       | Some (w', out) => replay_w v w' st rest (note (w_g w') out rs)
       | None => None
       end
@@ -185,9 +201,9 @@ Definition verdict (r : option bool) (intact : bool) : bool :=
 
 Definition bad (c : ccase) : bool :=
   match c with
-  | CaseG st calls intact => verdict (replay_g fixed (g_init CGraph st) (sorts (snap_graph (g_init CGraph st))) calls []) intact
-  | CaseC st calls intact => verdict (replay_c fixed (c_init st) (sorts (snap_chain (c_init st))) calls []) intact
-  | CaseW st calls intact => verdict (replay_w fixed (w_init st) (sorts (snap_wf (w_init st))) calls []) intact
+  | CaseG st calls intact => verdict (replay_g fixed (g_init CGraph st) (hstate (snap_graph (g_init CGraph st))) calls []) intact
+  | CaseC st calls intact => verdict (replay_c fixed (c_init st) (hstate (snap_chain (c_init st))) calls []) intact
+  | CaseW st calls intact => verdict (replay_w fixed (w_init st) (hstate (snap_wf (w_init st))) calls []) intact
   end.
 
 Definition mismatches (cs : list ccase) : list nat := mismatches_from bad 0 cs.
